@@ -59,6 +59,8 @@ type Exec struct {
 	monitor  bool
 	catching int
 	abstract []string // reasons this path used an unrealisable stub result
+	syncMaps map[string]*Map
+	onceDone map[string]bool
 	curFn    []*ssa.Function
 	curIn    ssa.Instruction
 	fnNames  map[*ssa.Function]string
@@ -357,10 +359,11 @@ func (x *Exec) reportInScope(kind, id string) {
 }
 
 type frame struct {
-	fn    *ssa.Function
-	env   map[ssa.Value]Val
-	prev  *ssa.BasicBlock
-	loops map[*ssa.BasicBlock]int
+	fn     *ssa.Function
+	env    map[ssa.Value]Val
+	prev   *ssa.BasicBlock
+	loops  map[*ssa.BasicBlock]int
+	defers []func()
 }
 
 func (x *Exec) zero(t types.Type) Val {
@@ -608,8 +611,17 @@ func (x *Exec) call(fn *ssa.Function, args []Val, env []Val) Val {
 			case *ssa.MapUpdate:
 				x.curIn = in
 				x.mapUpdate(x.get(fr, in.Map).(*Map), x.get(fr, in.Key), x.get(fr, in.Value))
-			case *ssa.DebugRef, *ssa.RunDefers:
-			case *ssa.Defer, *ssa.Go, *ssa.Send, *ssa.Select:
+			case *ssa.DebugRef:
+			case *ssa.RunDefers:
+				// deferred calls run at normal return, last first (recover is not modelled)
+				for i := len(fr.defers) - 1; i >= 0; i-- {
+					fr.defers[i]()
+				}
+				fr.defers = nil
+			case *ssa.Defer:
+				x.curIn = in
+				fr.defers = append(fr.defers, x.deferred(fr, in.Common()))
+			case *ssa.Go, *ssa.Send, *ssa.Select:
 				panic(unsupported{fmt.Sprintf("instruction %T in %s", in, fn)})
 			case ssa.Value:
 				x.curIn = in.(ssa.Instruction)
